@@ -17,6 +17,7 @@ func init() {
 		Rel(c, "R-REL", []*packages.Package{c.Pkg("ord")}, func(p *packages.Package, fd *ast.FuncDecl, fn *types.Func) bool { return true }, nil, 200)
 		Sorter(c, "R-SORTER", libPkgs(c))
 		Sign(c, "R-SIGN", libPkgs(c))
+		Strict(c, "R-STRICT", libPkgs(c))
 		NoSwap(c, "R-NOSWAP", []*packages.Package{c.Pkg("ord")})
 	})
 }
